@@ -10,7 +10,8 @@ TEXT = ('Error discipline over the file-loading code: every Result carrying a sy
         'UnexpectedEof or by returning the error. Sample fidelity, frame counts, streaming == loading and Symphonia\'s own '
         'behaviour on corrupt input are not decided.'
         ' After every Decoder::seek the scheduler records the index the seek actually reached.'
-        ' A frame behind the decoder position is reached by seeking back; the static loader appends every decoded packet.')
+        ' A frame behind the decoder position is reached by seeking back; the static loader appends every decoded packet.'
+        ' The streaming decoder reports the sample rate of the codec parameters.')
 TECHNIQUE = 'MIR error-discipline (result-flow) and path rules'
 
 FNS = ['sound::static_sound::data::from_file::<impl sound::static_sound::data::StaticSoundData>::from_boxed_media_source',
@@ -159,6 +160,25 @@ def run(ctx, R, tier):
     eof(F, R)
     seek_landing(F, R)
     load_append(F, R)
+    rate_rule(F, R)
+
+
+def rate_rule(F, R):
+    """The sample rate a streaming decoder reports is the one encoded in the file: SymphoniaDecoder::sample_rate returns its
+    `sample_rate` field, and `new` initialises that field from the codec parameters' sample_rate."""
+    SD = 'sound::streaming::decoder::symphonia::SymphoniaDecoder'
+    b = F.body('<%s as sound::streaming::decoder::Decoder>::sample_rate' % SD)
+    nb = F.body(SD + '::new')
+    if not R.check(b is not None and nb is not None, 'B.C18.rate', 'anchor', 'SymphoniaDecoder::sample_rate / new not found'):
+        return
+    rets = [str(p.ret) for p in explore(b) if p.end == 'return']
+    R.check(rets == ['(*self).sample_rate'], 'B.C18.rate', 'getter', 'SymphoniaDecoder::sample_rate returns %s' % rets, detail={'returns': rets})
+    init = None
+    for bb, si, s in nb.stmts():
+        if s['k'] == 'assign' and s['rv']['k'] == 'agg' and s['rv'].get('adt') == SD:
+            init = describe(nb, s['rv']['ops'][s['rv']['fields'].index('sample_rate')], depth=8, at=bb)
+    R.check(init is not None and 'sample_rate' in init and 'codec_params' in init, 'B.C18.rate', 'init',
+            'the decoder\'s sample_rate field is initialised from %s, not from the codec parameters\' sample_rate' % init, detail={'init': (init or '')[:140]})
 
 
 def load_append(F, R):
